@@ -187,7 +187,7 @@ class C14(Check):
                   'sampled by seed.')
     level_note = ('Trusted: the harness model of the tree, mimetypes.guess_type as the definition of "guessed '
                   'Content-Type". Confinement is judged by the kernel, not a path model.')
-    required_probes = ('fault-harmless-served', 'fallthrough-to-second-app', 'conditional-304', 'escape-refused',
+    required_probes = ('server-zone-with-daylight-saving', 'server-zone-not-utc', 'fault-harmless-served', 'fallthrough-to-second-app', 'conditional-304', 'escape-refused',
                        'read-error-after-start')
 
     # ---- generation --------------------------------------------------------
@@ -208,7 +208,9 @@ class C14(Check):
             for rel in pool:
                 if rng.random() < (0.75 if r == rnames[0] else 0.5):
                     files.append({'rel': rel, 'kind': rng.choice(['text', 'text', 'bin', 'empty', 'big']),
-                                  'mtime_off': -rng.choice([0, 1, 37, 3600, 86400 * 3]) - rng.choice([0, 0, 0.25, 0.5, 0.75])})
+                                  # seconds .. days .. the other half of the year (daylight-saving differs there)
+                                  'mtime_off': -rng.choice([0, 1, 37, 3600, 86400 * 3, 86400 * 120, 86400 * 182, 86400 * 250])
+                                  - rng.choice([0, 0, 0.25, 0.5, 0.75])})
                     if rng.random() < 0.1:
                         # a file from the future relative to the server clock (clock skew, an unpacked archive)
                         files[-1]['mtime_off'] = rng.choice([1.0, 3600.0, 86400.0 * 365, 4e8])
@@ -240,7 +242,10 @@ class C14(Check):
                            for fs in roots.values() for f in fs)
         return {'roots': roots, 'apps': apps, 'prefix': rng.choice(['/s/', '/s', '/', '/static/deep/']),
                 'slash': rng.choice(['redirect', 'redirect', 'rewrite', 'strict']),
-                'ghost': ghost if ghost_ok else None}
+                'ghost': ghost if ghost_ok else None,
+                # the server's time zone (POSIX TZ strings: no zone database needed), several with daylight saving
+                'tz': rng.choice([None, None, 'UTC', 'CET-1CEST,M3.5.0,M10.5.0/3', 'EST5EDT,M3.2.0,M11.1.0',
+                                  'NZST-12NZDT,M9.5.0,M4.1.0/3', 'IST-5:30', 'XXX+11'])}
 
     def gen_target(self, rng, cfg):
         """-> (target, rel-as-decoded) relative path requested under the prefix."""
@@ -345,6 +350,26 @@ class C14(Check):
 
     # ---- execution ---------------------------------------------------------
     def execute(self, plan):
+        import time as _time
+        tz = plan['config'].get('tz') or 'UTC'
+        old_tz = os.environ.get('TZ')
+        os.environ['TZ'] = tz
+        _time.tzset()
+        try:
+            res = self._execute(plan)
+        finally:
+            if old_tz is None:
+                os.environ.pop('TZ', None)
+            else:
+                os.environ['TZ'] = old_tz
+            _time.tzset()
+        if tz != 'UTC':
+            res.probe('server-zone-not-utc')
+            if ',' in tz:
+                res.probe('server-zone-with-daylight-saving')
+        return res
+
+    def _execute(self, plan):
         res = RunResult()
         w = World(plan['config'])
         seam = FsSeam()
@@ -356,7 +381,7 @@ class C14(Check):
                 seam.install(sm, cstatic)
                 # the server clock (static.py does not read it today; if it ever does, it reads the simulated one)
                 clock = SimClock()
-                _, simdt = make_datetime_proxy(clock)
+                _, simdt = make_datetime_proxy(clock, local_zone=True)
                 sm.patch(cstatic, 'datetime', simdt)
                 seam.begin()
                 app = w.build_app()
